@@ -135,7 +135,7 @@ def observe(system):
 def load_and_compare(env, fmt, via, variant, data, e, loadkw, keyprefix=None):
     """One load through the real code + all clauses.  Returns True when the load returned a system."""
     rec, am = env.rec, env.am
-    key = getattr(env, 'force_key', None) or keyprefix or f'{fmt}:{via}:{variant}'
+    key = keyprefix or f'{fmt}:{via}:{variant}'
     what = fmt
     system = None
     with env.ctx.guard(f'{fmt}: load does not raise on a well-formed file', key + ':exception'):
@@ -252,9 +252,6 @@ def group_data(env):
         fmt = GS.pick(i, 1, FMT_LAMMPS, i // nst)
         withvel = (i + i // nst) % 2 == 0
         explicit_style = (i // 2) % 2 == 0
-        # hybrid styles under a unit style other than the default get their own mechanism key (reader and writer must
-        # both build the hybrid column table with the requested units)
-        env.force_key = 'atom_data:hybrid-units' if (style.startswith('hybrid') and units != 'metal') else None
         natoms = natoms_for(ctx, rng, i)
         quantities = ST.quantities(style, withvel)
         sig = ('atom_data', style, units, fmt, 'vel' if withvel else 'novel')
@@ -349,7 +346,6 @@ def group_data(env):
                 rec.count('clause:truncated data file raises FileFormatError')
                 rec.fail('truncated data file raises FileFormatError', f'atom_data:truncated:{what}:loaded',
                          natoms=getattr(got, 'natoms', None))
-        env.force_key = None
         for p in (path, bp):
             try:
                 os.remove(p)
@@ -706,13 +702,11 @@ def run(ctx):
     import atomman.unitconvert as uc
     env = Env()
     env.ctx, env.rec, env.am, env.uc, env.fcache = ctx, ctx.rec, am, uc, {}
-    env.force_key = None
     env.tmp = tempfile.mkdtemp(prefix='vfC08_')
     rec = ctx.rec
     cover.start([r[0] for r in REACH])
     try:
         group_data(env)
-        env.force_key = None
         group_dump(env)
         group_table(env)
         group_poscar(env)
